@@ -233,7 +233,7 @@ func ruleR16_2(r *Run) {
 						held = true
 					}
 				}
-				if reason, ok := r.exception(construct + ":under-mu"); ok && !held {
+				if reason, ok := r.exceptionFor("R16.2", construct+":under-mu"); ok && !held {
 					r.ok(construct+":under-mu", "exception: "+reason, w.pos(in.Pos()))
 					continue
 				}
